@@ -234,3 +234,14 @@ Theorem C17_handle_stale_memo_refuted :
   snd (run (toy_inv false) nat nat toy_compute toy_eff (toy_prog false) [fresh nat (fun _ => 6%nat)]) = [6; 10]%nat.
 Proof. exact toy_summary. Qed.
 Print Assumptions C17_handle_stale_memo_refuted.
+
+(* observers are NOT assumed pure in the model (an observer scribbles over whatever the inventory says it mutates in place); the
+   clause of inventory_ok that no observer writes is regenerated from api.py / core.py.  Necessity: *)
+Theorem C17_handle_observer_writes_refuted :
+  inventory_ok (toy_obs_inv true) = false /\ offenders (toy_obs_inv true) = [("sorted_partitioned_columns", "_statistics")] /\
+  inventory_ok (toy_obs_inv false) = true /\
+  snd (run (toy_obs_inv true) nat nat toy_compute toy_eff toy_obs_prog [fresh nat (fun _ => 6%nat)]) = [6; 6; 0]%nat /\
+  snd (run_spec nat nat toy_compute toy_eff toy_obs_prog [fun _ => 6%nat]) = [6; 6; 6]%nat /\
+  snd (run (toy_obs_inv false) nat nat toy_compute toy_eff toy_obs_prog [fresh nat (fun _ => 6%nat)]) = [6; 6; 6]%nat.
+Proof. exact toy_observer_writes. Qed.
+Print Assumptions C17_handle_observer_writes_refuted.
